@@ -103,6 +103,53 @@ def _linear_stage(constraints, neg, budget=2000):
     return v == 'unsat'
 
 
+_VARS_MEMO = {}
+
+
+def term_vars(t):
+    """set of uninterpreted constant / function names in t"""
+    out = set()
+    seen = set()
+    stack = [t]
+    while stack:
+        x = stack.pop()
+        xi = x.get_id()
+        if xi in seen:
+            continue
+        seen.add(xi)
+        if z3.is_app(x):
+            if x.decl().kind() == z3.Z3_OP_UNINTERPRETED:
+                out.add(x.decl().name())
+            stack.extend(x.children())
+    return out
+
+
+def relevance_stages(constraints, neg):
+    """increasingly large subsets of the constraints, most relevant first"""
+    V = set(term_vars(neg))
+    cv = [(c, term_vars(c)) for c in constraints]
+    inside = [c for c, vs in cv if vs and vs <= V]
+    stages = []
+    if len(inside) < len(constraints):
+        stages.append(('subset-vars', inside))
+    touch = [c for c, vs in cv if vs & V]
+    if len(inside) < len(touch) < len(constraints):
+        stages.append(('subset-1hop', touch))
+    return stages
+
+
+def _relevance_stage(constraints, neg, budget=3000):
+    for name, sub in relevance_stages(constraints, neg):
+        v, _ = _run(_mk_solver, sub, neg, budget)
+        if v == 'unsat':
+            return name
+        if not _has_int_or_uf(sub, neg):
+            v, _ = _run(_nlsat_solver, sub, neg, budget)
+            if v == 'unsat':
+                return name + '-nlsat'
+    return None
+
+
 def check(constraints, negated_claim, timeout_ms, use_cvc5=True):
     """Staged: z3 default (short), nlsat tactic (short), z3 default (full),
     nlsat (full), cvc5.  returns (verdict, model_or_None, seconds, engine)"""
@@ -110,6 +157,10 @@ def check(constraints, negated_claim, timeout_ms, use_cvc5=True):
     T = timeout_ms
     if _linear_stage(constraints, negated_claim):
         return 'unsat', None, time.time() - t0, 'z3-linear-subset'
+    if len(constraints) > 12:
+        st = _relevance_stage(constraints, negated_claim)
+        if st:
+            return 'unsat', None, time.time() - t0, 'z3-' + st
     pure = not _has_int_or_uf(constraints, negated_claim)
     stages = [('z3', _mk_solver, min(T, 4000))]
     if pure:
